@@ -275,7 +275,7 @@ End Sem.
 (* ---- typing of values against a declaration ------------------------------- *)
 Definition is_msg_ty (t : fty) : bool :=
   match t with
-  | TDate _ _ | TDecimal _ _ | TTimestamp _ _ | TAny _ _ _ | TObject _ _ | TOneof _ _ => true
+  | TDate _ _ | TDecimal _ _ | TTimestamp _ _ | TAny _ _ _ | TObject _ _ _ | TOneof _ _ _ => true
   | _ => false
   end.
 
@@ -294,6 +294,14 @@ Definition fvalue_typed (d : prop) (fv : fvalue) : bool :=
   | PSingle t, FOne v => value_typed t v
   | PArray _ _ t, FMany vs => forallb (value_typed t) vs
   | PMap _ t, FMap kvs => forallb (fun kv => value_typed t (snd kv)) kvs
+  | _, _ => false
+  end.
+
+(* one value per property of a message *)
+Fixpoint typed_obj (ds : list prop) (fvs : list fvalue) : bool :=
+  match ds, fvs with
+  | [], [] => true
+  | d :: r, v :: s => fvalue_typed d v && typed_obj r s
   | _, _ => false
   end.
 
